@@ -11,7 +11,8 @@ command-line error.
 Excluded, and why (`excluded_formula_commands`): `dimacs` (reads a file: the outcome is that of the DIMACS reader, C06 /
 C14), `randkcnf` `randkxor` (random formulas: C13 / C07 — `Cli/Run.lean`), `vdw` (a `nargs='*'` positional: the typed
 namespace lemmas of Lemmas/OutcomeG.lean do not cover it; `vdw_clean` + C17's `dispatch_total` + correspondence), and
-`stone`, which has its own statement `end_to_end_stone_x` (the `--sparse` path needs the typed namespace too).
+`stone`, which has its own statement `end_to_end_stone_x` below (EVERY path, `--sparse` included; it is not in the
+list only because its class is not one of the four decidable classes of `coveredAll`).
 -/
 import Props.C18.AllTokens
 import Props.C18.EndToEnd
@@ -205,23 +206,138 @@ theorem numeric_endsWell (re : RandEnv) (env : GraphEnv) (g : SimpleG) (tool : S
           | none => rw [hF] at hev; simp at hev
           | some r' => rfl
 
+/-! ### `stone`, the `--sparse` path included -/
+
+/-- the path `SparseStoneFormula(D, bipartite_random_left_regular(D.order(), s, sparse))` as the proof reads it: taken
+only when `args.sparse is not None`; `D` a DAG argument that is always bound, `s` a typed positional, `sparse` a typed
+option whose default is `None` -/
+def sparseShape (s : CliSpec) (t : CallTemplate) : Bool :=
+  t.raises == "" && t.fn == "SparseStoneFormula" &&
+  (match t.pos with | [.arg "D", .opaque _ _] => true | _ => false) &&
+  (match t.kw with | [("formula_class", .name _)] => true | _ => false) &&
+  (match t.guard with | .and (.and (.hasattr "sparse") (.isNotNone (.arg "sparse"))) _ => true | _ => false) &&
+  og_graphBound s "dag" "D" && dtot_intBound s "s" && dtot_intOrNone s "sparse"
+
+theorem stone_paths_x : ∀ s ∈ cliSpecs, s.name = "stone" →
+    s.standard = true ∧ ∀ t ∈ s.templates, pathCovered s t = true ∨ sparseShape s t = true := by decide +kernel
+
+/-- T-C18.X3 `stone`, EVERY path (`--sparse d` with `d ≤ s` included: the graph — or the ValueError — of
+`bipartite_random_left_regular` comes from `RandEnv.lreg`): every token list of the fragment ends in a formula or a
+command-line error -/
+theorem end_to_end_stone_x (re : RandEnv) (env : GraphEnv) (g : SimpleG) (tool : String) (ord : List String → Nat)
+    (s : CliSpec) (hs : s ∈ cliSpecs) (hname : s.name = "stone") (argv : List String)
+    (hf : inFragment s argv = true) : EndsWell (cliOutcomeX re env g tool ord s argv) := by
+  obtain ⟨hstd, hall⟩ := stone_paths_x s hs hname
+  refine standard_endsWell re env g tool ord s hs hstd argv hf (fun b hb => ?_)
+  obtain ⟨t, htm, hd, hor⟩ := og_path s hstd hs argv b hb env
+  have hsel := dispatchTemplate_select s argv b t _ hb hd
+  refine ⟨t, hsel, ?_⟩
+  rcases hall t htm with hcov | hsp
+  · rcases hor hcov with ⟨_, hi⟩ | ⟨c, hi, hsome⟩
+    · exact Or.inl hi
+    · refine Or.inr ⟨c, hi, evalCallX_isSome_of_any re env g _ c ?_⟩
+      unfold evalCallAny
+      obtain ⟨bt, hbt⟩ := Option.isSome_iff_exists.1 hsome
+      rw [hbt]; rfl
+  · unfold sparseShape at hsp
+    simp only [Bool.and_eq_true, beq_iff_eq] at hsp
+    obtain ⟨⟨⟨⟨⟨⟨⟨hr, hfn⟩, hpos⟩, hkw⟩, hgd⟩, hD⟩, hS⟩, hSp⟩ := hsp
+    have hg := og_select_guard _ _ _ hsel
+    obtain ⟨toks, hDv⟩ := og_graphBound_val s hstd argv b hb "dag" "D" hD
+    obtain ⟨i, hSv⟩ := dtot_intBound_val s hstd argv b hb "s" hS
+    obtain ⟨v, hv, hvor⟩ := dtot_intOrNone_val s hstd argv b hb "sparse" hSp
+    obtain ⟨guard, raises, fn, pos, kw, eff⟩ := t
+    dsimp only at hr hfn hpos hkw hgd hg
+    subst hr hfn
+    -- the guard says `args.sparse is not None`
+    have hint : ∃ j, v = .int j := by
+      rcases hvor with rfl | h
+      · exfalso
+        split at hgd
+        · rename_i X
+          simp [evalGuard, evalE, hv, truthy, isNoneV] at hg
+        · cases hgd
+      · exact h
+    obtain ⟨j, rfl⟩ := hint
+    split at hpos
+    · rename_i src ds
+      split at hkw
+      · rename_i nm
+        right
+        refine ⟨⟨"SparseStoneFormula", [.graph "dag" toks, .opaque src], [("formula_class", .param nm)]⟩, ?_, ?_⟩
+        · simp [instantiate, evalPos, evalKw, evalE, hDv]
+        · apply evalCallX_isSome_of_R
+          simp [evalCallR, hSv, hv]
+      · cases hkw
+    · cases hpos
+
+/-! ### `vdw`: a `nargs='*'` positional -/
+
+def vdwShape (s : CliSpec) (t : CallTemplate) : Bool :=
+  t.raises == "" && t.fn == "VanDerWaerden" &&
+  (match t.pos with | [.arg "N", .arg "k1", .arg "k2", .star (.arg "ks")] => true | _ => false) &&
+  (match t.kw with | [("formula_class", .name _)] => true | _ => false) &&
+  dtot_intBound s "N" && dtot_intBound s "k1" && dtot_intBound s "k2" && dtot_starDest s "ks"
+
+theorem vdw_paths_x : ∀ s ∈ cliSpecs, s.name = "vdw" →
+    s.standard = true ∧ ∀ t ∈ s.templates, vdwShape s t = true := by decide +kernel
+
+theorem allInts_map_int (l : List Int) : allInts (l.map Val.int) = some l := by
+  induction l with
+  | nil => rfl
+  | cons a r ih => simp [allInts, ih]
+
+/-- T-C18.X4 `vdw N k1 k2 [k3 …]`: every token list of the fragment ends in a formula or a command-line error -/
+theorem end_to_end_vdw_x (re : RandEnv) (env : GraphEnv) (g : SimpleG) (tool : String) (ord : List String → Nat)
+    (s : CliSpec) (hs : s ∈ cliSpecs) (hname : s.name = "vdw") (argv : List String)
+    (hf : inFragment s argv = true) : EndsWell (cliOutcomeX re env g tool ord s argv) := by
+  obtain ⟨hstd, hall⟩ := vdw_paths_x s hs hname
+  refine standard_endsWell re env g tool ord s hs hstd argv hf (fun b hb => ?_)
+  obtain ⟨t, htm, hd, _hor⟩ := og_path s hstd hs argv b hb env
+  have hsel := dispatchTemplate_select s argv b t _ hb hd
+  refine ⟨t, hsel, ?_⟩
+  have hsp := hall t htm
+  unfold vdwShape at hsp
+  simp only [Bool.and_eq_true, beq_iff_eq] at hsp
+  obtain ⟨⟨⟨⟨⟨⟨⟨hr, hfn⟩, hpos⟩, hkw⟩, hN⟩, hk1⟩, hk2⟩, hks⟩ := hsp
+  obtain ⟨n, hNv⟩ := dtot_intBound_val s hstd argv b hb "N" hN
+  obtain ⟨k1, hk1v⟩ := dtot_intBound_val s hstd argv b hb "k1" hk1
+  obtain ⟨k2, hk2v⟩ := dtot_intBound_val s hstd argv b hb "k2" hk2
+  obtain ⟨l, hlv⟩ := dtot_starDest_val s hstd argv b hb "ks" hks
+  obtain ⟨guard, raises, fn, pos, kw, eff⟩ := t
+  dsimp only at hr hfn hpos hkw
+  subst hr hfn
+  split at hpos
+  · split at hkw
+    · rename_i nm
+      right
+      refine ⟨⟨"VanDerWaerden", .int n :: .int k1 :: .int k2 :: l.map Val.int, [("formula_class", .param nm)]⟩, ?_, ?_⟩
+      · simp [instantiate, evalPos, evalKw, evalE, hNv, hk1v, hk2v, hlv]
+      · apply evalCallX_isSome_of_any
+        have : allInts (Val.int n :: Val.int k1 :: Val.int k2 :: l.map Val.int) = some (n :: k1 :: k2 :: l) := by
+          simp [allInts, allInts_map_int]
+        simp [evalCallAny, evalCallG, gHandlers, List.lookup, evalCallF, this]
+    · cases hkw
+  · cases hpos
+
 /-! ### the theorem -/
 
 /-- the formula sub-commands of `cli_never_escapes_all` -/
 def coveredAll (s : CliSpec) : Bool :=
   s.kind == "formula" && s.supportedX &&
-  (inlineCovered s || outcomeCovered s || graphCovered s || !(s.standard || s.inline))
+  (inlineCovered s || outcomeCovered s || graphCovered s || !(s.standard || s.inline) || s.name == "stone" ||
+   s.name == "vdw")
 
 theorem covered_formula_commands :
     (cliSpecs.filter coveredAll).map (·.name) =
       ["and", "bphp", "cliquecoloring", "count", "cpls", "domset", "ec", "false", "iso", "kclique", "kcliquebin",
-       "kcolor", "matching", "op", "or", "parity", "peb", "php", "pitfall", "ptn", "ram", "ramlb", "rphp", "subgraph",
-       "subsetcard", "tiling", "true", "tseitin"] := by decide +kernel
+       "kcolor", "matching", "op", "or", "parity", "peb", "php", "pitfall", "ptn", "ram", "ramlb", "rphp", "stone",
+       "subgraph", "subsetcard", "tiling", "true", "tseitin", "vdw"] := by decide +kernel
 
 /-- the formula sub-commands outside `cli_never_escapes_all` (see the head of this file for the reasons) -/
 theorem excluded_formula_commands :
     (cliSpecs.filter (fun s => s.kind == "formula" && !coveredAll s)).map (·.name) =
-      ["dimacs", "randkcnf", "randkxor", "stone", "vdw"] := by decide +kernel
+      ["dimacs", "randkcnf", "randkxor"] := by decide +kernel
 
 /-- the token lists the theorem speaks about: ALL of them for the inline helpers and for `op php subsetcard tseitin`;
 those of the argparse fragment (exact option strings) for a sub-command with standard options -/
@@ -245,7 +361,7 @@ theorem cli_never_escapes_all (re : RandEnv) (env : GraphEnv) (g : SimpleG) (too
     intro hstd
     unfold tokensCovered at hf
     simpa [hstd] using hf
-  rcases hcls with ((hi | hn) | hg) | hsp
+  rcases hcls with ((((hi | hn) | hg) | hsp) | hst) | hvd
   · exact end_to_end_inline_all_tokens re env g tool ord s hs hi argv
   · have hstd : s.standard = true := by
       have : ∀ s' ∈ cliSpecs, outcomeCovered s' = true → s'.standard = true := by decide +kernel
@@ -258,6 +374,8 @@ theorem cli_never_escapes_all (re : RandEnv) (env : GraphEnv) (g : SimpleG) (too
     exact graph_endsWell re env g tool ord s hs hg argv (hfr hstd)
   · simp only [Bool.or_eq_false_iff] at hsp
     exact end_to_end_special_all_tokens re env g tool ord s hs hkind hsx hsp.1 hsp.2 argv
+  · exact end_to_end_stone_x re env g tool ord s hs hst argv (hfr (stone_paths_x s hs hst).1)
+  · exact end_to_end_vdw_x re env g tool ord s hs hvd argv (hfr (vdw_paths_x s hs hvd).1)
 
 /-- … in particular -/
 theorem cli_never_escapes_all' (re : RandEnv) (env : GraphEnv) (g : SimpleG) (tool : String)
